@@ -38,7 +38,7 @@ def main():
         ddir = m.group(1) if m else "."
         m = re.search(r"^// run: *(.+)$", demo, re.M)
         runcmd = m.group(1).strip() if m else "go test -vet=off -count=1 -run Seed ."
-        runcmd = re.sub(r"/tmp/seed/C\d+", wt, runcmd)
+        runcmd = re.sub(r"/tmp/seed/C\d+b?", wt, runcmd)
         runcmd = re.sub(r"GOFLAGS=\S+ |GOPROXY=\S+ ", "", runcmd)
         demo_path = os.path.join(wt, ddir, "zz_seed_demo_test.go")
         rc, out = sh("git apply " + patch, wt)
